@@ -7,6 +7,7 @@ mod c11;
 mod c06;
 mod fsfam;
 mod c08;
+mod c09;
 mod c17;
 
 use std::io::{BufWriter, Write};
@@ -29,6 +30,7 @@ fn main() {
                 "C11" => c11::gen(tier, seed, &mut out),
                 "C06" => c06::gen(tier, seed, &mut out),
                 "C08" => c08::gen(tier, seed, &mut out),
+                "C09" => c09::gen(tier, seed, &mut out),
                 "C17" => c17::gen(tier, seed, &mut out),
                 _ => {
                     eprintln!("unknown property {}", prop);
@@ -75,6 +77,13 @@ fn replay_one(toks: &[&str]) -> String {
             let scratch = common::scratch_root().join("c08r");
             std::fs::create_dir_all(&scratch).unwrap();
             let r = c08::observe(&toks[1..], &scratch);
+            common::rm_rf(&scratch);
+            r
+        }
+        "C09" => {
+            let scratch = common::scratch_root().join("c09r");
+            std::fs::create_dir_all(&scratch).unwrap();
+            let r = c09::observe(&toks[1..], &scratch);
             common::rm_rf(&scratch);
             r
         }
